@@ -1,6 +1,6 @@
 (* Property C12 — a rule tree selects, per match, the conclusion ripple-down rules prescribe.
    Only statements, `exact`, and Print Assumptions. *)
-From EQL Require Import Base Generated RuleTree RuleTree_Facts.
+From EQL Require Import Base Generated RuleTree RuleTree_Facts RuleTree_Grown.
 
 (* For EVERY rule program - a base rule and, nested to ANY depth and in ANY order, refinements and alternatives under the
    base, under refinements and under alternatives (branches with pairwise distinct conclusions) - the operator tree the
@@ -41,6 +41,23 @@ Theorem C12_refinement_replaces : forall c tag b x, holds c x = true ->
   rdr (RN c tag b) x = Some (match exc_sel b x with Some t => t | None => tag end).
 Proof. exact rdr_base_true. Qed.
 Print Assumptions C12_refinement_replaces.
+
+(* GROWN trees.  Re-entering `with rule_mode(query)` attaches at the query's conditions root ([reenter]: the new branch wraps the
+   whole tree).  Alternatives added that way - any number, with any blocks of their own, to a tree t assembled so far, after any
+   evaluation - build exactly the tree a single block would have built ([build_b] continuing from the base rule, the leftmost
+   branch of t): the theorems above therefore cover rule trees maintained the ripple-down way, one alternative after the other.
+   (A refinement added after re-entering a wrapped tree is a refinement of the WHOLE tree, not of the base rule:
+   RuleTree_Grown.grown_refinement_differs.) *)
+Theorem C12_grown_alternatives : forall b t, only_alts b = true -> grow b t = build_b b t (leftmost t).
+Proof. exact grown_alternatives. Qed.
+Print Assumptions C12_grown_alternatives.
+
+Example C12_grown_nonvacuous :
+  let base := RN [(0,1)] 1 (BCons KRef (RN [(1,1)] 2 BNil) BNil) in
+  let later := BCons KAlt (RN [(2,1)] 3 (BCons KRef (RN [(3,1)] 4 BNil) BNil)) (BCons KAlt (RN [(3,0)] 5 BNil) BNil) in
+  only_alts later = true /\ leftmost (build base) = 1 /\
+  show_tree (grow later (build base)) = "A(A(E(L1,L2),E(L3,L4)),L5)"%string.
+Proof. vm_compute. repeat split. Qed.
 
 (* non-vacuity: base b0=1 with a refinement (b1=1) that has its own refinement (b2=1) and an alternative (b3=1), a second
    refinement of the base, and two alternatives of the base, the second with a refinement; all 16 four-bit items *)
